@@ -73,7 +73,7 @@ APIS = ["await get_resource(T0)", "await get_resource(T1)", "get_resource_nowait
 def race_params(tier):
     n = 2 if tier == "quick" else 3
     S = 7 if tier == "quick" else 8
-    return [P("ntask", 0, n - 2), P("fsteps", 0, 2), P("multi", 0, 1)] + [P(f"api{i}", 0, 3) for i in range(n)] + [
+    return [P("ntask", 0, n - 2), P("fsteps", 0, 3), P("multi", 0, 1)] + [P(f"api{i}", 0, 3) for i in range(n)] + [
         P(f"s{i}", 0, 2) for i in range(S)
     ]
 
@@ -83,7 +83,7 @@ def race_fn(a, tier):
     nmax = 2 if tier == "quick" else 3
     S = 7 if tier == "quick" else 8
     n = 2 + pick(a["ntask"], nmax - 1)
-    fsteps = pick(a["fsteps"], 3)
+    fsteps = pick(a["fsteps"], 4) - 1  # -1: a synchronous factory; 0..2: async factory awaiting that many checkpoints
     multi = pick(a["multi"], 2)
     apis = [pick(a[f"api{i}"], 4) for i in range(n)]
     tape = Tape([a[f"s{i}"] for i in range(S)])
@@ -91,12 +91,18 @@ def race_fn(a, tier):
     results = {}
     events = []
 
-    async def factory():
+    async def afactory():
         calls.append(current_context())
         v = Val(f"gen#{len(calls)}")
         for _ in range(fsteps):
             await anyio.sleep(0)
         return v
+
+    def sfactory():
+        calls.append(current_context())
+        return Val(f"gen#{len(calls)}")
+
+    factory = sfactory if fsteps < 0 else afactory
 
     async def racer(i, ctx):
         api = apis[i]
@@ -145,14 +151,14 @@ def race_fn(a, tier):
     if exc is not None:
         raise exc
     ctx, final = holder["ret"]
-    summary = {"tasks": [APIS[x] for x in apis], "factory_checkpoints": fsteps, "multi_type": bool(multi),
+    summary = {"tasks": [APIS[x] for x in apis], "factory": "synchronous" if fsteps < 0 else f"async, {fsteps} checkpoints", "multi_type": bool(multi),
                "schedule": tape.taken, "factory_calls": len(calls)}
     objs = [r for r in results.values() if isinstance(r, Val)] + [f for f in final if isinstance(f, Val)]
     for i, r in results.items():
         if apis[i] == 2:
             # sync API: either the async factory is refused, or (if another task already
             # finished generating) the stored product is returned
-            if not (isinstance(r, AsyncResourceError) or isinstance(r, Val)):
+            if not ((isinstance(r, AsyncResourceError) and fsteps >= 0) or isinstance(r, Val)):
                 return FAIL("race:nowait-unexpected", repr(r), summary)
         elif not isinstance(r, Val):
             return FAIL(f"race:lookup-failed:{type(r).__name__}", repr(r), summary)
@@ -176,7 +182,7 @@ RACE = Harness(
     cube=lambda tier: 5 if tier == "quick" else 6,
     title="concurrent lookups of one async factory from several tasks under all schedule prefixes",
     bound_text=lambda tier: f"{'2' if tier == 'quick' else '2-3'} tasks x lookup API{{get_resource(T0), get_resource(sibling type), get_resource_nowait, injected}} "
-    f"x factory awaiting 0-2 checkpoints x single/multi-type; first {7 if tier == 'quick' else 8} scheduling decisions arbitrary, FIFO afterwards",
+    f"x factory {{synchronous, async awaiting 0-2 checkpoints}} x single/multi-type; first {7 if tier == 'quick' else 8} scheduling decisions arbitrary, FIFO afterwards",
     oracle="factory called exactly once, in the requesting context; every successful lookup (racing or later, any type of the factory) "
     "returns that one object; exactly one resource_added event for the generation; the sync API either refuses (AsyncResourceError) or returns the stored product",
     outside="factories that raise; >3 racing tasks; schedules deviating after the prefix",
